@@ -54,17 +54,22 @@ type Root struct {
 
 // Disk is the fault state of the simulated file system (one per world; nil = no limits).
 type Disk struct {
-	Roots        []*Root
+	Roots []*Root
+	// EIOArmed: the next file write that would take the bytes written since arming beyond EIOAfter
+	// fails with EIO (nothing of it is written); fires once
+	EIOArmed     bool
+	EIOAfter     int64
+	eioSeen      int64
 	FailMkdirs   int // this many of the next MkdirAll calls fail (ENOSPC: no inode / no block for the directory)
 	FailReadDirs int // this many of the next ReadDir calls fail (EIO: the directory cannot be listed right now)
 	// FailReadDirsFull: this many of the next ReadDir calls of a directory holding at least
 	// FullCount entries fail (EIO); listings of other directories are not affected
 	FailReadDirsFull int
 	FullCount        int
-	Stats        struct {
-		Creates, Writes, Closes, Removes, Mkdirs, Opens, ReadDirs uint64
-		ENOSPC, PartialWrites, CreateErrs, MkdirErrs, ReadDirErrs uint64
-		BytesWritten                                              uint64
+	Stats            struct {
+		Creates, Writes, Closes, Removes, Mkdirs, Opens, ReadDirs      uint64
+		ENOSPC, PartialWrites, CreateErrs, MkdirErrs, ReadDirErrs, EIO uint64
+		BytesWritten                                                   uint64
 	}
 }
 
@@ -271,6 +276,14 @@ func (f *File) Write(p []byte) (int, error) {
 	}
 	if disk != nil {
 		disk.Stats.Writes++
+	}
+	if disk != nil && disk.EIOArmed {
+		if disk.eioSeen+int64(len(p)) > disk.EIOAfter {
+			disk.EIOArmed, disk.eioSeen = false, 0
+			disk.Stats.EIO++
+			return 0, &os.PathError{Op: "write", Path: f.path, Err: syscall.EIO}
+		}
+		disk.eioSeen += int64(len(p))
 	}
 	if r := f.root; r != nil {
 		limit := r.Real
